@@ -9,6 +9,7 @@
 #include <deque>
 #include <map>
 #include <set>
+struct pollfd;
 
 namespace vos {
 
@@ -40,6 +41,16 @@ struct State {
   std::map<int, std::deque<AQ>> aq;
   std::set<int> async_fds;
   std::set<int> opaque_fds;               // content not checked (the driver's signalling pipe)
+  // sched mode: kernel answers come from the harness' virtual state instead of the script
+  struct Hooks {
+    int (*poll)(struct pollfd *, unsigned long, int) = nullptr;
+    long (*send)(int, const void *, unsigned long, int) = nullptr;
+    long (*recv)(int, void *, unsigned long) = nullptr;
+    long (*sendto)(int, const void *, unsigned long, int dstport) = nullptr;
+    long (*recvfrom)(int, void *, unsigned long, int *srcport) = nullptr;
+    bool clock = false;                     // steady clock = S.now_ns without consuming events
+    int (*tid)() = nullptr;                 // calling thread (logged with clock readings)
+  } hooks;
   bool script_underrun = false;
   int underrun_code = 0;
 };
